@@ -56,6 +56,16 @@ class Skipped(Exception):
     pass
 
 
+def even_limited(factor, fn):
+    """CPU-limited construction of even automata; after five cases that hit the limit the limit drops to 0.3 s, so that a
+    tree on which automaton_multiple degenerates everywhere still finishes inside the time budget"""
+    lim = factor * EVEN_CPU_LIMIT if _AUT.get("even_hits", 0) < 5 else 0.3
+    done, val = X.limited(lim, fn)
+    if not done:
+        _AUT["even_hits"] = _AUT.get("even_hits", 0) + 1
+    return done, val
+
+
 def build_automaton(G, shortlex):
     rank = len(G.ordered_gens)
     if rank >= 4:
@@ -267,7 +277,7 @@ def run_even(inp):
         return {"skipped": "large"}
     # automaton_multiple re-expands vertices that are queued more than once: its running time is exponential in the
     # depth for large automata (a performance problem, not a language error) -> CPU-time limit, case skipped when hit
-    done, ev = X.limited(EVEN_CPU_LIMIT, lambda: G.automaton(shortlex=inp["lex"], even_length=True))
+    done, ev = even_limited(1, lambda: G.automaton(shortlex=inp["lex"], even_length=True))
     if not done:
         return {"skipped": "even_automaton exceeded the CPU limit", "nstates": len(aut.graph_dict)}
     n = len(names)
@@ -466,13 +476,22 @@ def run_lang(inp):
             elif step == 1:
                 lex = build_automaton(G, True)
             else:
-                done, evs = X.limited(2 * EVEN_CPU_LIMIT, lambda: (G.automaton(shortlex=False, even_length=True),
-                                                                   G.automaton(shortlex=True, even_length=True)))
+                done, evs = even_limited(2, lambda: (G.automaton(shortlex=False, even_length=True),
+                                                     G.automaton(shortlex=True, even_length=True)))
     except Skipped:
         return {"skipped": "large", "bad": {}}
     A_geo, A_lex = accepted(geo, names, L), accepted(lex, names, L)
     if done:
-        A_geo_e, A_lex_e = accepted(evs[0], names, L - L % 2, even=True), accepted(evs[1], names, L - L % 2, even=True)
+        labs = {names[a] + names[b] for a in range(n) for b in range(n)}
+        stray = sorted({str(l) for e in evs for nbrs in e.graph_dict.values() for l in nbrs if l not in labs})
+        if stray:
+            bad_even_labels = stray[:5]
+            done = False
+        else:
+            bad_even_labels = None
+            A_geo_e, A_lex_e = accepted(evs[0], names, L - L % 2, even=True), accepted(evs[1], names, L - L % 2, even=True)
+    else:
+        bad_even_labels = None
     levels = tits_solver(M, L)
     reduced = set().union(*[set().union(*lv) if lv else set() for lv in levels])
     nf = {min(c) for lv in levels for c in lv}
@@ -487,6 +506,8 @@ def run_lang(inp):
             bad["geodesic"]["certificate"] = {"word": list(d1[0]), "steps": certificate(d1[0], M)}
     if A_lex != nf:
         bad["shortlex"] = {"accepted_not_normal_form": sorted(A_lex - nf)[:3], "normal_form_not_accepted": sorted(nf - A_lex)[:3]}
+    if bad_even_labels:
+        bad["even"] = {"labels_that_are_not_products_of_two_generator_names": bad_even_labels}
     ev_geo = {w for w in A_geo if len(w) % 2 == 0}
     ev_lex = {w for w in A_lex if len(w) % 2 == 0}
     if done and (A_geo_e != ev_geo or A_lex_e != ev_lex):
